@@ -172,6 +172,12 @@ def run(ctx):
     for name, f, x in c09.catalogue(ctx, rng, cd0)[:16]:
         if name.startswith("py"):
             frames.append((name, f, x))
+    # (d2) round 2: frames written by the independent writer zv/props/c04_enc.py from explicit encoding choices (c04_gen scenarios):
+    #      shapes the format allows and the bundled compressor never emits
+    from . import c04_gen
+    gen_frames = c04_gen.all_frames(rng, ctx.quick)
+    ctx.notes["writer_frames"] = len(gen_frames)
+    frames += [("writer " + n, f, x) for n, f, x in gen_frames]
     # (e) dictionary frames: structurally valid dictionaries with three distinct repeat offsets (built with the entropy writers of the
     #     current tree), inputs that START with a match at the k-th repeat offset, and ordinary inputs reusing dictionary content
     from . import c08
@@ -240,6 +246,8 @@ def run(ctx):
         lines = []
         for i, name, f, y, sig in valid:
             for pth, fl in PATHS:
+                if pth == "stream:1000:1" and len(y) > 1000000:
+                    continue        # one output byte per call: the harness gives up after 2,000,000 calls
                 lines.append("D f%d|%s|%s %s %s - %s %d" % (i, pth, fl, pth, fl, codec.hx(f), len(y) + 8))
         for i, name, db, f, y, sig in dvalid:
             for pth in DPATHS:
@@ -273,7 +281,8 @@ def run(ctx):
                 ctx.violation(dict(variant=v, path=pth, dflags=fl, source=name, frame_hex=f.hex()[:200000], expected_len=len(y),
                                    result=(r[1] if r[0] == "ERR" else "content differs (%d bytes)" % len(r[1]))),
                               what="valid frame (accepted by R, %s) is %s by libzstd build '%s' path %s flags %s" % (
-                                  name, "rejected (%s)" % r[1] if r[0] == "ERR" else "decoded to different bytes", v, pth, fl))
+                                  name, "rejected (%s)" % r[1] if r[0] == "ERR" else "decoded to different bytes", v, pth, fl),
+                              key="C04-x2-build-1stream-literals-size-shortcuts" if (v == "x2" and "[1s-expand]" in name) else None)
             else:
                 nok += 1
             ctx.count((sig, name.split(" ")[0], v, pth, fl), nontrivial=len(f) > 9)
